@@ -178,3 +178,91 @@ func ruleOverlapResultOwned(p *Prog, r *Report, rule string) {
 	})
 	r.Check(n >= 2, fnName(fn), "returns", "getOverlaps has its return sites", fmt.Sprintf("%d", n), p.Pos(fn.Pos()))
 }
+
+// ruleLevelsImmutable: the table slices of an installed version (version.levels[i]) are shared by
+// readers, by later versions that carry a level over unchanged, and by the reference loop. Nothing
+// may append to, re-slice-and-append, sort or store into such a slice in place; new levels are
+// built in fresh storage.
+func ruleLevelsImmutable(p *Prog, r *Report, rule string) {
+	r.Begin(rule, "E-FLOW", "installed levels are immutable: within package leveldb no append has a base that is (a sub-slice of) version.levels[i], no element of such a slice is stored to, and no in-place sort is applied to it; (intraprocedural value flow through locals and phis)", 1)
+	defer r.End()
+	isLevel := func(v ssa.Value) bool {
+		seen := map[ssa.Value]bool{}
+		var rec func(v ssa.Value) bool
+		rec = func(v ssa.Value) bool {
+			v = stripConv(v)
+			if seen[v] {
+				return false
+			}
+			seen[v] = true
+			switch x := v.(type) {
+			case *ssa.UnOp:
+				if ia, ok := x.X.(*ssa.IndexAddr); ok && isFieldLoad(ia.X, "leveldb.version", "levels") {
+					return true
+				}
+				for _, st := range cellStores(x.X) {
+					if rec(st) {
+						return true
+					}
+				}
+			case *ssa.Slice:
+				return rec(x.X)
+			case *ssa.Phi:
+				for _, e := range x.Edges {
+					if rec(e) {
+						return true
+					}
+				}
+			}
+			return false
+		}
+		return rec(v)
+	}
+	n, sites := 0, 0
+	for _, fn := range p.SrcFuncs("leveldb") {
+		withAnons(fn, func(f *ssa.Function) {
+			if f != fn && f.Parent() != fn {
+				return
+			}
+			instrs(f, func(_ *ssa.BasicBlock, _ int, in ssa.Instruction) {
+				switch x := in.(type) {
+				case *ssa.Call:
+					if isCallTo(x, "builtin:append") && namedOf(x.Type()) == "leveldb.tFiles" || (isCallTo(x, "builtin:append") && len(x.Call.Args) > 0 && isTFilesLike(x.Call.Args[0])) {
+						sites++
+						if isLevel(x.Call.Args[0]) {
+							n++
+							r.Fail(fnName(f), "append-onto-level@"+branchLabel(x), "no append onto an installed level", "append at "+p.Pos(x.Pos())+" uses (a sub-slice of) version.levels[i] as its base: spare capacity of that slice is the following tables of a live level", p.Pos(x.Pos()), nil)
+						}
+					}
+					if isCallTo(x, "(leveldb.tFiles).sortByKey", "(leveldb.tFiles).sortByNum") {
+						sites++
+						if isLevel(x.Call.Args[0]) {
+							n++
+							r.Fail(fnName(f), "sort-of-level@"+branchLabel(x), "no in-place sort of an installed level", "sort at "+p.Pos(x.Pos())+" reorders a live level under its readers", p.Pos(x.Pos()), nil)
+						}
+					}
+				case *ssa.Store:
+					if ia, ok := x.Addr.(*ssa.IndexAddr); ok && isTFilesLike(ia.X) {
+						sites++
+						if isLevel(ia.X) {
+							n++
+							r.Fail(fnName(f), "store-into-level@"+branchLabel(x), "no element store into an installed level", "store at "+p.Pos(x.Pos())+" overwrites a table of a live level", p.Pos(x.Pos()), nil)
+						}
+					}
+				}
+			})
+		})
+	}
+	r.Site(sites)
+	if n == 0 {
+		r.OK("leveldb", "levels-immutable", fmt.Sprintf("%d append/sort/element-store sites on table slices inspected, none targets an installed level", sites))
+	}
+}
+
+func isTFilesLike(v ssa.Value) bool {
+	n := namedOf(v.Type())
+	if n == "leveldb.tFiles" {
+		return true
+	}
+	return v.Type().String() == "[]*github.com/syndtr/goleveldb/leveldb.tFile"
+}
